@@ -182,8 +182,13 @@ class SyncDriver:
         return self.sched.now if self.sched is not None else 0.0
 
     def _touch(self) -> None:
+        """After an operation on the caller's thread: polling sleepers look again and
+        threads that are runnable right now (just spawned, or cancelled) get to run -
+        the default schedule of a prompt OS; no virtual time passes."""
         if self.sched is not None:
             self.sched.touch()
+            if self.sched.current is self.sched.main:
+                self.sched.run_all(until=self.sched.now)
 
     def start(self) -> Optional[BaseException]:
         try:
